@@ -60,8 +60,8 @@ impl<CS: CipherSuite> Envelope<CS> {
     /// nonce || auth_tag without the `serialize()` where-clauses
     pub(crate) fn to_bytes_for_verif(&self) -> [u8; 40] {
         let mut out = [0u8; 40];
-        out[..32].copy_from_slice(&self.nonce);
-        out[32..].copy_from_slice(&self.hmac[..8]);
+        crate::verif_kani::vk::put(&mut out[..32], &self.nonce);
+        crate::verif_kani::vk::put(&mut out[32..], &self.hmac[..8]);
         out
     }
 
